@@ -156,8 +156,8 @@ example :
     (exec .real init pre).owed = true ∧ (exec .real init pre).pc = .idleLoad ∧
     tickStarts .real (exec .real init pre) [.run, .run, .run, .run] = true := by decide
 
-/-- non-vacuity: a wake whose two halves straddle the park (store before `load`… no: after `load`), the
-notify arrives while parked -/
+/-- non-vacuity: a wake whose two halves straddle the park — its `store` lands after the runner's `load` read
+false, the runner parks, and only then the `notify` arrives: the helper is the in-flight waker -/
 example :
     let pre : List Act := [.run, .run, .run, .run, .run, .run, .run, .run, .store]
     (exec .real init pre).owed = true ∧ asleep (exec .real init pre) = true ∧
